@@ -1118,3 +1118,13 @@ def m_split_first(ex, c, args, m):
     if len(sl) == 0: return none()
     if m.group(1) == 'split_first': return some(tup(Ref(sl.lst, sl.start), SliceRef(sl.lst, sl.start + 1, sl.end)))
     return some(tup(Ref(sl.lst, sl.end - 1), SliceRef(sl.lst, sl.start, sl.end - 1)))
+
+@M.add(r'^core::slice::<impl \[.*\]>::windows$')
+def m_windows(ex, c, args, m):
+    sl = args[0]; n = conc(args[1])
+    if n == 0: raise Panic('window size must be non-zero')
+    return It([SliceRef(sl.lst, sl.start + i, sl.start + i + n) for i in range(len(sl) - n + 1)])
+@M.add(r'^core::slice::<impl \[.*\]>::chunks$')
+def m_chunks(ex, c, args, m):
+    sl = args[0]; n = conc(args[1])
+    return It([SliceRef(sl.lst, sl.start + i, min(sl.start + i + n, sl.end)) for i in range(0, len(sl), n)])
